@@ -29,6 +29,10 @@ GuardSuper(e) ==
   /\ (e.has_xattr <=> ~Has(e.flags, "NO_XATTRS"))
   /\ (e.frags > 0 => (e.has_frag_tbl /\ ~Has(e.flags, "NO_FRAGS")))
   /\ e.comp \in 1..6
+  \* compressor options: one uncompressed metadata block right behind the super block iff the flag is set; its size is fixed
+  \* per compressor (gzip 8, lzo 8, xz 8, lz4 8, zstd 4; lzma has none)
+  /\ (Has(e.flags, "COMP_OPTS") <=> e.comp_opts_len >= 0)
+  /\ (e.comp_opts_len >= 0 => e.comp_opts_len = (CASE e.comp = 1 -> 8 [] e.comp = 3 -> 8 [] e.comp = 4 -> 8 [] e.comp = 5 -> 8 [] e.comp = 6 -> 4 [] OTHER -> 0 - 1))
 
 GuardData(st, e) ==
   /\ e.stored <= st.sup.block_size /\ e.usize <= st.sup.block_size
